@@ -397,6 +397,9 @@ pub fn value_for_spelling(class: &str, name: &str, salt: u32) -> rbx_dom_weak::t
         None => match name.as_bytes().last() {
             Some(b'S') => Variant::String(format!("u{}", s)),
             Some(b'V') => Variant::Vector3(Vector3::new(s as f32, 0.0, 1.0)),
+            // a type whose values live in a side table of the file (SSTR): the neutral value given to an instance that
+            // lacks the property must be registered there too
+            Some(b'H') => Variant::SharedString(SharedString::new(format!("shared{}", s).into_bytes())),
             _ => Variant::Int32(1000 + s as i32),
         },
     }
